@@ -52,9 +52,9 @@ Fails(ln) ==
 
 \* known findings: a failure is "known" only if the named predicate holds on the data set and nothing else is wrong.
 \* For the two findings about ids that do not fit osm.FeatureID "nothing else is wrong" means: under every option
-\* set the real features are exactly those of the Model of the tree as it is (Conv reproduces both defects and
-\* nothing else; GeoJsonMC checks that it coincides with the ideal variant wherever neither predicate holds, and
-\* that the ideal variant satisfies every Judge).
+\* set the real features are exactly those of the Model of the tree before fixes b715ff7 / 51b669e (ConvFormer
+\* reproduces both defects and nothing else; GeoJsonMC checks that it coincides with the ideal variant wherever
+\* neither predicate holds, and that the ideal variant satisfies every Judge).
 KFidNames(ds) == (IF KF_PolygonIdentityViaFeatureID(ds) THEN {"KF_PolygonIdentityViaFeatureID"} ELSE {})
                  \cup (IF KF_NegativeIdsShareMembershipKey(ds) THEN {"KF_NegativeIdsShareMembershipKey"} ELSE {})
 KF(ln, fails) ==
@@ -64,17 +64,15 @@ KF(ln, fails) ==
   THEN {"KF_SharedOldStyleOuter"}
   ELSE IF /\ fails # {} /\ KFidNames(ln.case) # {}
           /\ \A x \in fails : x[1] \in {"AtMostOnePerElement", "CarriesTypeIdTags", "MetaAndMembership", "NodeRule", "OptionOnlyItsEffect"}
-          /\ \A k \in DOMAIN ln.got.runs : FeatsEq(ln.got.runs[k].feats, Conv(ln.case, ToSet(ln.got.runs[k].o)))
+          /\ \A k \in DOMAIN ln.got.runs : FeatsEq(ln.got.runs[k].feats, ConvFormer(ln.case, ToSet(ln.got.runs[k].o)))
   THEN KFidNames(ln.case) ELSE {}
 
-\* Model vs. real code (divergence, not a verdict): the real features differ from the Model of the tree as it is
-\* and from the ideal variant (a tree in which the FeatureID findings are repaired matches the latter).
+\* Model vs. real code (divergence, not a verdict): the real features differ from the Model of the tree as it is.
 \* (the Model satisfies J_Options - OptionsInv of GeoJsonMC - so when the real results do too, comparing
 \*  the results for {}, {IIP} and all four options is as good as comparing all 16)
 Diverging(ln, all) == {ln.got.runs[k].o : k \in {k \in DOMAIN ln.got.runs :
                      /\ (all \/ ToSet(ln.got.runs[k].o) \in {{}, {"IIP"}, Options})
-                     /\ ~FeatsEq(ln.got.runs[k].feats, Conv(ln.case, ToSet(ln.got.runs[k].o)))
-                     /\ ~FeatsEq(ln.got.runs[k].feats, ConvIdeal(ln.case, ToSet(ln.got.runs[k].o)))}}
+                     /\ ~FeatsEq(ln.got.runs[k].feats, Conv(ln.case, ToSet(ln.got.runs[k].o)))}}
 
 Report(i) ==
   LET ln == Lines[i]
